@@ -1316,10 +1316,12 @@ def defer_harness():
     return tasks_mod, fake, body, KEY
 
 
-def probe_defer(existing_state, cyclic, known_trigger=False, started=True):
+def probe_defer(existing_state, cyclic, known_trigger=False, started=True, still_impossible=False):
     """What the REAL Task.defer does when the join execution already exists in `existing_state` (None = absent) and
     a task routes to it: 'create' | 'keep' | 'rearm' (put back to WAITING).  `started`: the execution has action
-    executions (it ran) or none (it completed by its logical state only).  Sequential, no race."""
+    executions (it ran) or none (it completed by its logical state only).  `still_impossible`: what the task's own
+    test of its logical state (Task._is_still_impossible, where the source has it) answers - replaced here so that the
+    probe never reaches the database.  Sequential, no race."""
     from unittest import mock
     from mistral.db.v2 import api as db_api  # noqa
     from mistral.engine import tasks as tasks_mod
@@ -1370,8 +1372,12 @@ def probe_defer(existing_state, cyclic, known_trigger=False, started=True):
         def register_operation(func, args=None, in_tx=False):
             pass        # e.g. a workflow completion check: does not touch the join execution
     trig = [{'task_id': 'ta' if known_trigger else 'tb', 'event': 'on-success'}]
-    with mock.patch.object(tasks_mod, 'db_api', FakeDb()), mock.patch.object(tasks_mod.Task, 'set_state', set_state), \
-            mock.patch.object(tasks_mod, 'post_tx_queue', FakeQueue):
+    with contextlib.ExitStack() as stack:
+        stack.enter_context(mock.patch.object(tasks_mod, 'db_api', FakeDb()))
+        stack.enter_context(mock.patch.object(tasks_mod.Task, 'set_state', set_state))
+        stack.enter_context(mock.patch.object(tasks_mod, 'post_tx_queue', FakeQueue))
+        if hasattr(tasks_mod.Task, '_is_still_impossible'):
+            stack.enter_context(mock.patch.object(tasks_mod.Task, '_is_still_impossible', lambda self: still_impossible))
         t = tasks_mod.RegularTask(WfEx(), wf_spec, wf_spec.get_tasks()['j'], {}, task_ex=None, unique_key=KEY,
                                   waiting=True, triggered_by=trig)
         t.defer()
@@ -1386,15 +1392,24 @@ def suite_defer_decision(ctx):
     exprs, obs, cases = [], [], []
     for cyclic in (False, True):
         for st in [None] + STATES:
-            for started in ((True, False) if st in COMPLETED else (True,)):
-                eff = probe_defer(st, cyclic, started=started)
+            variants = [(True, False)]
+            if st in COMPLETED:
+                variants.append((False, False))
+                # a join that never started and still cannot run is not re-armed (where the source has that test)
+                from mistral.engine import tasks as tasks_mod
+                if hasattr(tasks_mod.Task, '_is_still_impossible'):
+                    variants.append((False, True))
+            for started, impossible in variants:
+                eff = probe_defer(st, cyclic, started=started, still_impossible=impossible)
                 flag = 'defer_rearm_cyclic' if cyclic else 'defer_rearm_acyclic'
                 a = abstract[st] if started else 'JFailed'
-                exprs.append('jstate_code (on_trigger %s defer_rearm_unstarted %s)' % (flag, a))
+                # a never-started join is re-armed when it can run now, or - like one that ran - when it lies on a cycle
+                exprs.append('jstate_code (on_trigger %s ((defer_rearm_unstarted && negb %s) || %s) %s)'
+                             % (flag, 'true' if impossible else 'false', flag, a))
                 # the state the real code leaves behind, abstracted the same way
                 after = {'create': 'JWaiting', 'rearm': 'JWaiting', 'keep': a}.get(eff, eff)
                 obs.append(code.get(after, after))
-                cases.append({'existing': st, 'cyclic': cyclic, 'started': started, 'effect': eff})
+                cases.append({'existing': st, 'cyclic': cyclic, 'started': started, 'still_impossible': impossible, 'effect': eff})
     res = core.coq_eval('c04defer', ['Model.JoinLife', 'Gen.Locks'], exprs)
     for c, o, r in zip(cases, obs, res):
         ctx.count('defer_decision', json.dumps(c, sort_keys=True), nontrivial=c['existing'] is not None)
@@ -1402,7 +1417,8 @@ def suite_defer_decision(ctx):
         if str(o) != r.strip():
             ctx.disagree('defer_decision', c, r, o)
     ctx.cov['suites']['defer_decision']['effects'] = {
-        '%s/%s/%s' % (c['existing'], 'cyclic' if c['cyclic'] else 'acyclic', 'ran' if c['started'] else 'never-ran'): c['effect']
+        '%s/%s/%s' % (c['existing'], 'cyclic' if c['cyclic'] else 'acyclic',
+                      'ran' if c['started'] else ('never-ran-still-impossible' if c['still_impossible'] else 'never-ran')): c['effect']
         for c in cases}
 
 
